@@ -30,10 +30,15 @@ def run(c, a):
     ]
     # ---- 1. exhaustive model check + transition dump
     dump_path = os.path.join(c.scratch, "ring-transitions.ndjson")
-    cfg = "dump_thorough.cfg" if thorough else "dump.cfg"
+    # thorough: two bounded instances (capacity up to 8 with 4 proxy ids; capacity up to 4 with 5 proxy ids). Both bounds at
+    # once (8, 5) do not finish: > 2.5e7 states generated after 15 min, measured
+    cfgs = ["dump_thorough.cfg", "dump_thorough2.cfg"] if thorough else ["dump.cfg"]
     with open(dump_path, "w") as df:
-        r = c.tlc("Ring", "Ring", cfg, workers=12, timeout=1500 if thorough else 300, line_cb=df.write,
-                  coverage=False)
+        for cfg in cfgs:
+            r = c.tlc("Ring", "Ring", cfg, workers=12, timeout=1500 if thorough else 600, line_cb=df.write,
+                      coverage=False, name="design-" + cfg[:-4])
+            if r.violated or not r.ok:
+                break
     if r.violated:
         # a design-level counterexample on the current spec: must be reproduced on real code by the replay
         c.notes.append("TLC reports %s violated on the bounded design" % r.violated)
